@@ -48,6 +48,9 @@ CLAIMS["C06"] = ("Every successful path of the (re)connection decision procedure
 
 CLAIMS["C19"] = ("Replies are stored only after classification succeeded (must, through all phi inputs); the classifier answers no code silently and on every path MOVED/ASK yields an error or the retry's own result; the sender's retry is constant-bounded and on every path returns nil only when its last attempt succeeded, with the failed batch still queued; per-node lists are append-only with forward send/receive and index reassembly; a transaction is re-dispatched only after a resolved redirect, a bounded number of times, with its commands untouched; transactional cluster mode switches client redirect handling off; escalation mapping preserves non-nil errors. Owner-at-that-time and per-key order under migrations are runtime behaviour and not decided.", "3/C19")
 
+CLAIMS["C05"] = ("Guarded-by tables checked with a must-hold lockset per instruction for both cache backends and the pipe (about 300 accesses), lock-requiring helpers called with the lock held (requirement propagated), no call made with a mutex held exclusively reaches code that locks the same mutex of the same object again (call graph); check-then-acquire in one critical section; collectors remove only unreferenced, closed, non-current segments; writer continuity; acquire-before-release hand-over; close-before-drop on reset; the snapshot is offered only through the 'whole and continued by its log' predicate; the disk reader rotates to its own right edge; a pinned snapshot keeps its log on every path of the collector. Byte equality under interleavings is not decided.", "3/C05")
+CLAIMS["C08"] = ("Snapshot rename only under written == announced after Sync ≺ Close, the count advancing only after a successful write; the scan ignores temporaries and empty segments; gap truncation before publication keeps the newest run, drops the snapshot, and also compares the snapshot/log joint; with verification enabled segments and completed snapshots are checked on open, the check passing only with equal size and checksum on every path; header finalised before Sync/Close; opening a reader with verification cannot block on the storer's own mutex (re-entrant lock detection over the call graph).", "3/C08")
+
 NOT_YET = "check not built yet in this revision (planned, see DESIGN.md section 3)"
 
 def main():
